@@ -66,102 +66,92 @@ def _enum_members(project):
     return out
 
 
-def _members_in_test(test):
-    """ImageMode members compared against in an if-test: `x == ImageMode.A`, `x in (ImageMode.A, ...)`."""
-    out = []
-    subj = None
-    if isinstance(test, ast.Compare) and len(test.ops) == 1:
-        comp = test.comparators[0]
-        elts = comp.elts if isinstance(comp, (ast.Tuple, ast.List, ast.Set)) else [comp]
-        if isinstance(test.ops[0], (ast.Eq, ast.In, ast.Is)):
-            for e in elts:
-                d = dotted(e)
-                if d and d.startswith("ImageMode."):
-                    out.append(d.split(".", 1)[1])
-                elif d and d.startswith("cls.") and d.split(".")[1][:1].isupper():
-                    out.append(d.split(".", 1)[1])
-            subj = dotted(test.left)
-    return subj, out
+DISPATCHERS = {
+    IMG + ".ImageMode.make_maskable_buffer": ("mode-object", "make_maskable_buffer"),
+    IMG + ".Image.fill_into_maskable_buffer": ("image", "fill"),
+    IMG + ".Image.update_into_maskable_buffer": ("image", "update"),
+    IMG + ".Image.is_completely_masked": ("image", "masked"),
+    IMG + ".Image.clear": ("image", "clear"),
+    IMG + ".Image.default_format": ("image", "default_format"),
+}
 
 
-def _chains(fnode):
-    """Mode dispatch chains of a function: list of (If node, [(members, body, test)], else body)."""
-    chains = []
-    seen = set()
-    for n in own_nodes(fnode):
-        if not isinstance(n, ast.If) or id(n) in seen:
-            continue
-        subj, mem = _members_in_test(n.test)
-        if not mem:
-            continue
-        branches = []
-        cur = n
-        while True:
-            seen.add(id(cur))
-            s2, m2 = _members_in_test(cur.test)
-            if not m2 or s2 != subj:
-                break
-            branches.append((m2, cur.body, cur.test))
-            if len(cur.orelse) == 1 and isinstance(cur.orelse[0], ast.If):
-                cur = cur.orelse[0]
-                continue
-            els = cur.orelse
-            break
-        else:
-            els = []
-        if len(branches) >= 2:
-            chains.append((n, branches, els, subj))
-    return chains
+def _mode_decider(kind, mode):
+    """Assumption callback: the image mode is ImageMode.<mode>."""
+    if kind == "image":
+        subjects = {("attr", ("sym", "self"), "mode"), ("attr", ("sym", "self"), "_mode")}
+    else:
+        subjects = {("sym", "self")}
+
+    def member(t):
+        if t[0] == "attr" and t[1] in (("sym", "ImageMode"), ("sym", "cls")):
+            return t[2]
+        return None
+
+    def decide(c):
+        if c[0] != "op" or not c[1].startswith("cmp:"):
+            return None
+        op = c[1][4:]
+        a, b2 = c[2]
+        if op in ("Eq", "Is", "NotEq", "IsNot"):
+            if a in subjects and member(b2):
+                r = member(b2) == mode
+            elif b2 in subjects and member(a):
+                r = member(a) == mode
+            else:
+                return None
+            return r if op in ("Eq", "Is") else (not r)
+        if op in ("In", "NotIn") and a in subjects and b2[0] in ("tuple", "list", "op"):
+            items = b2[1] if b2[0] in ("tuple", "list") else b2[2]
+            ms = [member(x) for x in items]
+            if any(m is None for m in ms):
+                return None
+            r = mode in ms
+            return r if op == "In" else (not r)
+        return None
+    return decide
+
+
+def _eval_for_mode(project, f, kind, mode):
+    ev = sym.make_evaluator(project, IMG, [], inline_local=True)
+    ev.self_class = IMG + (".Image" if kind == "image" else ".ImageMode")
+    ev.assume = _mode_decider(kind, mode)
+    return ev.run(f.node)
 
 
 def _r1_chains(run, members):
+    """R1: under the assumption `mode == M`, for every member M, each dispatcher completes without raising
+    (partial evaluation: the shape of the dispatch -- elif chain, early returns, helper methods -- does not matter)."""
     project = run.project
-    found = {}
-    for f in project.functions_in(IMG):
-        for head, branches, els, subj in _chains(f.node):
-            if subj not in ("self", "self.mode", "self._mode", "mode"):
-                continue
-            run.note_func(f)
-            found.setdefault(f.qual, []).append((f, head, branches, els))
-            handled = [m for ms, body, t in branches for m in ms]
-            dup = sorted({m for m in handled if handled.count(m) > 1})
-            missing = [m for m in members if m not in handled]
-            raising_else = any(isinstance(x, ast.Raise) for s in els for x in ast.walk(s))
-            unknown = [m for m in handled if m not in members]
-            if unknown:
-                run.violated("C15.R1", f, head, "%s tests the non-existent mode(s) %s" % (f.short, unknown), kind="unknown-mode")
-            elif dup:
-                run.violated("C15.R1", f, head, "%s handles mode(s) %s in two branches: the second is dead" % (f.short, dup), kind="duplicate-mode")
-            elif missing and raising_else:
-                run.violated("C15.R1", f, head, "%s no longer handles mode(s) %s: images of that mode raise 'unhandled mode' in the middle of tiling" % (f.short, missing),
-                             kind="mode-dropped", missing=missing)
-            elif missing and not els:
-                # no else at all: falls through silently
-                run.violated("C15.R1", f, head, "%s silently does nothing for mode(s) %s (no branch, no raising else)" % (f.short, missing), kind="mode-dropped-silent", missing=missing)
-            elif missing:
-                run.undecided("C15.R1", f, head, "%s: modes %s reach a non-raising else branch" % (f.short, missing), kind="mode-else")
-            else:
-                run.holds("C15.R1", f, head, "%s: all %d modes handled once%s" % (f.short, len(members), ", raising else" if raising_else else ""))
-    return found
-
-
-def _branch_of(found, qual, mode):
-    for f, head, branches, els in found.get(qual, []):
-        for ms, body, t in branches:
-            if mode in ms:
-                return f, body
-    return None, None
-
-
-def _eval_branch(project, f, body):
-    """Evaluate a dispatcher branch in the context of its function (prefix statements before the chain are kept)."""
-    ev = sym.make_evaluator(project, IMG, [])
-    # evaluate the whole function but keep only events located inside the branch body
-    r = ev.run(f.node)
-    ids = {id(x) for s in body for x in ast.walk(s)}
-    evs = [e for e in r.events if id(e.node) in ids or any(id(x) in ids for x in [e.node])]
-    rets = [(pc, t, n) for pc, t, n in r.returns if id(n) in ids]
-    return evs, rets
+    results = {}
+    for q, (kind, role) in DISPATCHERS.items():
+        f = project.fn(q)
+        run.note_func(f)
+        unhandled = []
+        undecided = []
+        for m in members:
+            r = _eval_for_mode(project, f, kind, m)
+            results[(q, m)] = r
+            for e in r.events:
+                if e.kind != "raise":
+                    continue
+                conds = [c for c in e.pc if c[0] != "loop"]
+                mode_conds = [c for c in conds if "ImageMode" in show(c[0]) or "mode" in show(c[0])]
+                if not conds:
+                    unhandled.append(m)
+                elif mode_conds:
+                    undecided.append((m, show(mode_conds[0][0])[:60]))
+            if role == "default_format" and not r.returns:
+                unhandled.append(m)
+        unhandled = sorted(set(unhandled), key=members.index)
+        if unhandled:
+            run.violated("C15.R1", f, None, "%s does not handle mode(s) %s: images of that mode raise 'unhandled mode' (or get no result) in the middle of tiling" % (
+                f.short, unhandled), kind="mode-dropped", missing=unhandled)
+        elif undecided:
+            run.undecided("C15.R1", f, None, "%s: cannot decide the mode test %s for mode %s" % (f.short, undecided[0][1], undecided[0][0]), kind="mode-test")
+        else:
+            run.holds("C15.R1", f, None, "%s: every one of the %d modes is handled (no path raises under `mode == M`)" % (f.short, len(members)))
+    return results
 
 
 def _classify_fill(evs):
@@ -173,96 +163,90 @@ def _classify_fill(evs):
             continue
         if num_value(a) == 0:
             vals.add("zero")
-        elif show(a) in ("np.nan", "numpy.nan", "math.nan") or "nan" in show(a).lower():
+        elif "nan" in show(a).lower():
             vals.add("nan")
         else:
             vals.add("other:" + show(a)[:20])
     return vals
 
 
-def _r2_conventions(run, members, found):
+def _r2_conventions(run, members, results):
     project = run.project
     q_clear = IMG + ".Image.clear"
     q_fill = IMG + ".Image.fill_into_maskable_buffer"
     q_mask = IMG + ".Image.is_completely_masked"
     q_upd = IMG + ".Image.update_into_maskable_buffer"
-    for q in (q_clear, q_fill, q_mask, q_upd):
-        if q not in found:
-            run.undecided("C15.R2", project.fn(q), None, "%s has no mode dispatch chain any more" % q.split(".")[-1], kind="no-chain")
-            return
     for mode in members:
-        if mode in NAN_SCALAR or mode in NAN_VECTOR:
-            want_fill = "nan"
-        else:
-            want_fill = "zero"
+        want_fill = "nan" if (mode in NAN_SCALAR or mode in NAN_VECTOR) else "zero"
         problems = []
         # clear
-        f, body = _branch_of(found, q_clear, mode)
-        if body is not None:
-            evs, rets = _eval_branch(project, f, body)
-            got = _classify_fill(evs)
-            if got != {want_fill}:
-                problems.append(("clear", f, "clear() fills %s buffers with %s; the undefined value for this mode is %s" % (mode, sorted(got) or "nothing", want_fill)))
+        f = project.fn(q_clear)
+        r = results[(q_clear, mode)]
+        got = _classify_fill(r.events)
+        if got != {want_fill}:
+            problems.append(("clear", f, "clear() fills %s buffers with %s; the undefined value for this mode is %s" % (mode, sorted(got) or "nothing", want_fill)))
         # fill
-        f, body = _branch_of(found, q_fill, mode)
-        if body is not None:
-            evs, rets = _eval_branch(project, f, body)
-            got = _classify_fill(evs)
-            if got != {want_fill}:
-                problems.append(("fill", f, "fill_into_maskable_buffer pre-fills %s buffers with %s; expected %s" % (mode, sorted(got) or "nothing", want_fill)))
-            stores = [e for e in evs if e.kind == "store" and e.term[1][0][0] == "sub"]
-            if mode == "RGB":
-                alpha = [e for e in stores if num_value(e.term[1][1]) == 255 and show(e.term[1][0][2]).endswith("(3))")]
-                if not alpha:
-                    problems.append(("fill", f, "fill of an RGB image does not set alpha = 255 on the addressed rectangle: the copied pixels stay undefined"))
+        f = project.fn(q_fill)
+        r = results[(q_fill, mode)]
+        got = _classify_fill(r.events)
+        if got != {want_fill}:
+            problems.append(("fill", f, "fill_into_maskable_buffer pre-fills %s buffers with %s; expected %s" % (mode, sorted(got) or "nothing", want_fill)))
+        stores = [e for e in r.events if e.kind == "store" and e.term[1][0][0] == "sub"]
+        if not stores:
+            problems.append(("fill", f, "fill of a %s image copies nothing into the buffer" % mode))
+        if mode == "RGB":
+            alpha = [e for e in stores if num_value(e.term[1][1]) == 255 and show(e.term[1][0][2]).endswith("(3))")]
+            if not alpha:
+                problems.append(("fill", f, "fill of an RGB image does not set alpha = 255 on the addressed rectangle: the copied pixels stay undefined"))
         # is_completely_masked
-        f, body = _branch_of(found, q_mask, mode)
-        if body is not None:
-            evs, rets = _eval_branch(project, f, body)
-            t = rets[0][1] if rets else None
-            s = show(t) if t is not None else ""
-            if mode in ("RGB",) or mode in INTS:
-                if t != sym.FALSE:
-                    problems.append(("masked", f, "%s images can never be completely undefined (no sentinel covers all pixels); is_completely_masked returns %s" % (mode, s[:60])))
-            elif mode == "RGBA":
-                ok = t is not None and "np.all" in s and "cmp:Eq" in s and "(3)" in s and "0" in s
-                if not ok:
-                    problems.append(("masked", f, "RGBA is completely masked iff all alpha (channel 3) == 0; got %s" % s[:80]))
-            else:
-                ok = t is not None and s.startswith("np.all(np.isnan(")
-                if not ok:
-                    problems.append(("masked", f, "%s is completely masked iff all pixels are NaN; got %s" % (mode, s[:80])))
+        f = project.fn(q_mask)
+        r = results[(q_mask, mode)]
+        rets = r.returns
+        t = rets[0][1] if len(rets) == 1 else None
+        s_ = show(t) if t is not None else "%d returns" % len(rets)
+        if mode == "RGB" or mode in INTS:
+            if t != sym.FALSE:
+                problems.append(("masked", f, "%s images can never be completely undefined (no sentinel covers all pixels); is_completely_masked returns %s" % (mode, s_[:60])))
+        elif mode == "RGBA":
+            ok = t is not None and "np.all" in s_ and "cmp:Eq" in s_ and "(3)" in s_
+            if not ok:
+                problems.append(("masked", f, "RGBA is completely masked iff all alpha (channel 3) == 0; got %s" % s_[:80]))
+        else:
+            ok = t is not None and s_.startswith("np.all(np.isnan(")
+            if not ok:
+                problems.append(("masked", f, "%s is completely masked iff all pixels are NaN; got %s" % (mode, s_[:80])))
         # update
-        f, body = _branch_of(found, q_upd, mode)
-        if body is not None:
-            evs, rets = _eval_branch(project, f, body)
-            puts = [e for e in evs if e.kind == "call" and show(e.term[1]) == "np.putmask"]
-            maxs = [e for e in evs if e.kind == "call" and show(e.term[1]) == "np.maximum"]
-            stores = [e for e in evs if e.kind == "store"]
-            if mode == "RGB":
-                a255 = [e for e in stores if num_value(e.term[1][1]) == 255]
-                if puts or maxs or not a255 or len(stores) < 2:
-                    problems.append(("update", f, "update of RGB must overwrite the addressed pixels and set their alpha to 255"))
-            elif mode == "RGBA":
-                ok = len(puts) == 1 and "cmp:NotEq" in show(puts[0].term[2][1]) and "(3)" in show(puts[0].term[2][1]) and "broadcast_to" in show(puts[0].term[2][1])
-                if not ok:
-                    problems.append(("update", f, "update of RGBA must copy exactly the source pixels with alpha != 0 (all channels of such a pixel)"))
-            elif mode in NAN_SCALAR:
-                ok = len(puts) == 1 and show(puts[0].term[2][1]).startswith("invert(np.isnan(")
-                if not ok:
-                    problems.append(("update", f, "update of %s must copy exactly the source pixels that are not NaN" % mode))
-            elif mode in NAN_VECTOR:
-                ms = show(puts[0].term[2][1]) if len(puts) == 1 else ""
-                per_pixel = "np.any(np.isnan(" in ms and "axis=(2)" in ms and "broadcast_to" in ms
-                if len(puts) == 1 and ms.startswith("invert(np.isnan(") and not per_pixel:
-                    problems.append(("update", f, "update of F16x3 decides validity per channel (~isnan element-wise): a source pixel that is undefined (NaN in "
-                                     "some channel) still overwrites the other channels of the destination pixel"))
-                elif not per_pixel:
-                    problems.append(("update", f, "update of F16x3 must treat a pixel as defined only if none of its three channels is NaN, and copy whole pixels"))
-            else:
-                ok = len(maxs) == 1 and not puts and dict(maxs[0].term[3]).get("out") is not None
-                if not ok:
-                    problems.append(("update", f, "update of integer mode %s must keep the larger of the two values (np.maximum into the buffer view)" % mode))
+        f = project.fn(q_upd)
+        r = results[(q_upd, mode)]
+        puts = [e for e in r.events if e.kind == "call" and show(e.term[1]) in ("np.putmask", "np.copyto")]
+        maxs = [e for e in r.events if e.kind == "call" and show(e.term[1]) == "np.maximum"]
+        stores = [e for e in r.events if e.kind == "store"]
+        if mode == "RGB":
+            a255 = [e for e in stores if num_value(e.term[1][1]) == 255]
+            if puts or maxs or not a255 or len(stores) < 2:
+                problems.append(("update", f, "update of RGB must overwrite the addressed pixels and set their alpha to 255"))
+        elif mode == "RGBA":
+            ms = show(puts[0].term[2][1]) if len(puts) == 1 else ""
+            ok = len(puts) == 1 and "cmp:NotEq" in ms and "(3)" in ms and "broadcast_to" in ms
+            if not ok:
+                problems.append(("update", f, "update of RGBA must copy exactly the source pixels with alpha != 0 (all channels of such a pixel); validity is %s" % ms[:80]))
+        elif mode in NAN_SCALAR:
+            ms = show(puts[0].term[2][1]) if len(puts) == 1 else ""
+            ok = len(puts) == 1 and (ms.startswith("invert(np.isnan(") or ms.startswith("np.logical_not(np.isnan(")) and "axis" not in ms
+            if not ok:
+                problems.append(("update", f, "update of %s must copy exactly the source pixels that are not NaN; validity is %s" % (mode, ms[:80])))
+        elif mode in NAN_VECTOR:
+            ms = show(puts[0].term[2][1]) if len(puts) == 1 else ""
+            per_pixel = ("np.any(np.isnan(" in ms or "np.all(np.logical_not(np.isnan(" in ms or "np.all(invert(np.isnan(" in ms) and "axis=(2)" in ms and "broadcast_to" in ms
+            if len(puts) == 1 and (ms.startswith("invert(np.isnan(") or ms.startswith("np.logical_not(np.isnan(")) and not per_pixel:
+                problems.append(("update", f, "update of F16x3 decides validity per channel (~isnan element-wise): a source pixel that is undefined (NaN in "
+                                 "some channel) still overwrites the other channels of the destination pixel"))
+            elif not per_pixel:
+                problems.append(("update", f, "update of F16x3 must treat a pixel as defined only if none of its three channels is NaN, and copy whole pixels; validity is %s" % ms[:80]))
+        else:
+            ok = len(maxs) == 1 and not puts and dict(maxs[0].term[3]).get("out") is not None
+            if not ok:
+                problems.append(("update", f, "update of integer mode %s must keep the larger of the two values (np.maximum into the buffer view)" % mode))
         if problems:
             for which, f, msg in problems:
                 run.violated("C15.R2", f, None, msg, kind="convention-%s-%s" % (which, mode), mode=mode)
